@@ -139,6 +139,9 @@ def judge(ctx, h, idx):
     B = np.array(model.basis_matrix_)
     lead = np.array(model.get_all_sensors()).tolist()[: min(B.shape)]
     problems = []
+    # single-precision data give a single-precision basis and reconstruction (rounding 1e-7 instead of 1e-16)
+    single = any(getattr(a, "dtype", None) == np.float32 for a in (model.basis_matrix_, final_x) if a is not None)
+    ptol = 1e-3 if single else 1e-7
     if B.shape != ref["B"].shape or not np.array_equal(B, ref["B"]):
         problems.append("basis_matrix")
     elif lead != ref["lead"]:
@@ -153,7 +156,7 @@ def judge(ctx, h, idx):
             if cond < 1e6:
                 want = (ref["B"] @ np.linalg.lstsq(Bs, final_x[:, sel].T, rcond=None)[0]).T
                 scale = 1 + float(np.max(np.abs(want)))
-                if got.shape != want.shape or not np.allclose(got, want, atol=1e-7 * scale * cond, rtol=0):
+                if got.shape != want.shape or not np.allclose(got, want, atol=ptol * scale * cond, rtol=0):
                     problems.append("predictions")
         except Exception:
             pass
@@ -169,7 +172,7 @@ def judge(ctx, h, idx):
             want = (ref["B"] @ np.linalg.lstsq(Bs, final_x[:, lead].T, rcond=None)[0]).T
             scale = 1 + float(np.max(np.abs(want)))
             cond = np.linalg.cond(Bs)
-            if cond < 1e6 and not np.allclose(got, want, atol=1e-7 * scale * cond, rtol=0):
+            if cond < 1e6 and not np.allclose(got, want, atol=ptol * scale * cond, rtol=0):
                 problems.append("predictions")
         except ValueError:
             pass
